@@ -313,6 +313,12 @@ func (s sub) ipnet(form int, noise [16]byte) (*net.IPNet, string) {
 			given.b[i] |= noise[i] &^ m
 		}
 	}
+	if s.v6 && s.bits < 96 && net.IP(given.raw()).To4() != nil && net.IP(s.base.raw()).To4() == nil {
+		// host bits that make the IP of an IPv6 subnet shorter than /96 look IPv4-mapped give a
+		// value package net itself reads as an IPv4 network (String and Contains use IP.To4()
+		// and Mask[12:]): not a spelling of this subnet, so the canonical IP is used instead
+		given = s.base
+	}
 	text := given.String() + "/" + s.suffix()
 	if s.v6 {
 		return &net.IPNet{IP: net.IP(given.raw()), Mask: net.IPMask(s.mask())}, text
